@@ -9,7 +9,7 @@ class C08(HndBase):
     coq_header = ("From Rdest Require Import Base Consts Wire Manager Handler Corr.Hnd.\nOpen Scope N_scope.\n"
                   "Definition codes := codes08.\n")
     rule = ("message histories on incoming and outgoing connections in which the handshake arrives first, late, twice or "
-            "never, with the right or a wrong info-hash / peer id; all other message kinds (bitfield, request for a stored "
+            "never, with the right or a wrong info-hash / peer id / protocol name (one byte off); all other message kinds (bitfield, request for a stored "
             "piece, have, unchoke ...) before and after it. Oracle: nothing but timer keep-alives is written to an incoming "
             "connection before a valid handshake, no Piece before a valid handshake on any connection, nothing at all after "
             "an invalid handshake (and the peer is reported dead), own handshake = (info-hash, own id). Non-trivial: "
@@ -20,8 +20,14 @@ class C08(HndBase):
         e1 = [ev_msg(m_bitfield([True, False]), bf="11"), ev_store(0), ev_msg(m_request(0, 0, 4), req="LOAD:0")]
         e2 = [ev_msg(m_hs(b"J" * 20)), ev_msg(INTERESTED), ev_wait(120000)]
         e3 = [ev_start(init="10"), ev_msg(m_hs(INFO_HASH, b"Q" * 20)), ev_msg(UNCHOKE)]
+        # every single-byte deviation of the handshake's fixed beginning, right hash and id: not a peer of this protocol
+        dev = []
+        for k in range(20):
+            h = bytes(b ^ (0x20 if i == k else 0) for i, b in enumerate(hs()))
+            dev.append(self.case(Scenario(False, [5, 3], 31, [ev_store(0), ev_bad(h), ev_msg(INTERESTED), ev_msg(m_request(0, 0, 4), req="LOAD:0")],
+                                          "corpus-wrong-proto")))
         return [self.case(Scenario(False, [5, 3], 31, e1, "corpus")), self.case(Scenario(False, [5, 3], 31, e2, "corpus")),
-                self.case(Scenario(True, [5, 3], 31, e3, "corpus"))]
+                self.case(Scenario(True, [5, 3], 31, e3, "corpus"))] + dev
 
     def gen(self, rng, tier):
         k = {"quick": 300, "thorough": 6000, "search": 1500}.get(tier, 300)
@@ -30,7 +36,7 @@ class C08(HndBase):
             n = rng.choice([1, 2, 3])
             plens = [rng.choice([1, 5, 9]) for _ in range(n)]
             outgoing = rng.random() < 0.5
-            wrong = rng.choice([None, None, "hash", "id"])
+            wrong = rng.choice([None, None, None, "hash", "id", "proto"])
             ev = mixed_scenario(rng, n, plens, outgoing, rng.choice([3, 6, 10]), w_wait=0.08, w_broad=0.1,
                                 hs_first=rng.choice([0.0, 0.5, 1.0]), wrong=wrong)
             if rng.random() < 0.4:      # a stored piece (an outgoing connection greets first: 'start' stays in front)
